@@ -219,6 +219,14 @@ def method_call(ex, f, recv, node, kw, st, sink):
             kws = dict(zip(kw.keys(), vals[len(node.args):]))
             out += ex.call_contract(c, pos, kws, s, sink, node)
         return out
+    override = ex.reg.contracts.get("%s.%s" % (t.sortname if isinstance(t, ty.Opaque) else t.name, name))
+    if override is not None:
+        out = []
+        for s, vals in ex.ev_list(list(node.args) + list(kw.values()), st, sink):
+            pos = [recv] + vals[:len(node.args)]
+            kws = dict(zip(kw.keys(), vals[len(node.args):]))
+            out += ex.call_contract(override, pos, kws, s, sink, node)
+        return out
     out = []
     for s, args in ex.ev_list(node.args, st, sink):
         h = None
